@@ -53,6 +53,24 @@ __CPROVER_ensures((which != NULL && NAME_TRACKED(value) && __CPROVER_return_valu
 	value->bool_val == (VJ_TYPE(which) == JSON_TRUE ? 1 : 0))
 ;
 
+/* ---- __getter, JSON values: the whole object (no name) or one member is serialised with sorted keys,
+ *      compact unless pretty is asked for; the caller gets that text or NOEXIST / INVALID ---- */
+jwt_value_error_t contract_C15___getter_json(json_t *which, jwt_value_t *value)
+REQ_WHICH(which)
+REQ_VALUE(value)
+__CPROVER_requires(value->type == JWT_VALUE_JSON)
+__CPROVER_requires(SETGET_OBS(which, value))
+__CPROVER_assigns(value->error, value->json_val, g_json_dumps_flags, g_json_dumped)
+__CPROVER_ensures(__CPROVER_return_value == value->error)
+__CPROVER_ensures(which == NULL ==> __CPROVER_return_value == JWT_VALUE_ERR_INVALID)
+__CPROVER_ensures((which != NULL && NAME_TRACKED(value) && !VJ_HAS(which)) ==> __CPROVER_return_value == JWT_VALUE_ERR_NOEXIST)
+__CPROVER_ensures((which != NULL && __CPROVER_return_value == JWT_VALUE_ERR_NONE) ==> (value->json_val != NULL && value->json_val[0] != 0 &&
+	g_json_dumps_flags == (JSON_SORT_KEYS | (value->pretty ? JSON_INDENT(4) : JSON_COMPACT))))
+/* what was serialised: the object itself, or exactly the named member */
+__CPROVER_ensures((which != NULL && NAME_EMPTY(value) && __CPROVER_return_value == JWT_VALUE_ERR_NONE) ==> g_json_dumped == which)
+__CPROVER_ensures((which != NULL && NAME_TRACKED(value) && __CPROVER_return_value == JWT_VALUE_ERR_NONE) ==> g_json_dumped == which->tracked)
+;
+
 /* ---- __setter (scalar types): EXIST without replace changes nothing; replace overwrites;
  *      empty/absent name or NULL string is INVALID with no change ---- */
 jwt_value_error_t contract_C15___setter(json_t *which, jwt_value_t *value)
